@@ -30,6 +30,9 @@ func (pr *Printer) File(f *File) string {
 	pr.b.Reset()
 	pr.file = f.Path
 	pr.line = 1
+	if f.Broken {
+		return "broken " + pr.L + "if" + pr.R + " template"
+	}
 	clause := 0
 	ws := func() {
 		if clause < len(f.HdrWS) {
